@@ -792,6 +792,10 @@ from mlmverif.selfcheck import B, OK  # noqa: E402
 
 _F = 'chainables/courier_server.py'
 VARIANTS = [
+    OK('handler-reads-the-queue-through-a-local', 'chainables/courier_server.py',
+       "        result.append(StopIteration(*self._generator.returned))\n", "        generator = self._generator\n        result.append(StopIteration(*generator.returned))\n"),
+    OK('generator-checked-through-a-named-flag', 'chainables/courier_server.py',
+       "      if not isinstance(result, Iterable):\n        raise TypeError(f'{result} is not a generator, but a {type(result)}.')\n", "      is_iterable = isinstance(result, Iterable)\n      if not is_iterable:\n        raise TypeError(f'{result} is not a generator, but a {type(result)}.')\n"),
     B('queue-installed-before-the-generator-exists', 'chainables/courier_server.py',
       "      logging.debug('chainable: %s', f'Constructing generator: {maybe_lazy}')\n      result = lazy_fns.maybe_make(maybe_lazy)\n      if not isinstance(result, Iterable):\n        raise TypeError(f'{result} is not a generator, but a {type(result)}.')\n      self._generator = iter_utils.IteratorQueue(\n          self.prefetch_size,\n          ignore_error=self._ignore_error,\n          name=f'prefetch_queue@{self.address}',\n      )\n",
       "      self._generator = iter_utils.IteratorQueue(\n          self.prefetch_size,\n          ignore_error=self._ignore_error,\n          name=f'prefetch_queue@{self.address}',\n      )\n      logging.debug('chainable: %s', f'Constructing generator: {maybe_lazy}')\n      result = lazy_fns.maybe_make(maybe_lazy)\n      if not isinstance(result, Iterable):\n        raise TypeError(f'{result} is not a generator, but a {type(result)}.')\n", 'R-C15-20'),
